@@ -74,6 +74,8 @@ def run(chk, replay=None):
         for i, line in enumerate(open(os.path.join(d, f))):
             if line.strip():
                 texts.append(("corpus/%d" % i, "corpus", line.strip(), None))
+    for i, (tag, text) in enumerate(corelib.scope_type_family()):
+        texts.append(("scope-type/%d" % i, "scope-type:" + tag, text, True if tag == "W" else None))
     ex = os.path.join(REPO, "examples")
     for f in sorted(os.listdir(ex)):
         if f.endswith(".simf"):
@@ -108,6 +110,9 @@ def run(chk, replay=None):
         chk.count("%s.%s" % (kind, "accept" if impl_ok else "reject"))
         if m == "panic":
             chk.violation({"class": "model-panic", "what": text[:200]}, dict(base, model=m, broken="the model of ast.rs reaches a panic site on a parsed program (contradicts C04_analyze_no_panic) — would the Rust panic too?"))
+            continue
+        if kind == "scope-type:I" and impl_ok:
+            chk.violation({"class": "ill-typed-accepted", "what": text[:300]}, dict(base, broken="a program that uses a re-bound name at the type of the binding it shadows (or a name that is out of scope) is accepted"))
             continue
         if must and not impl_ok:
             chk.violation({"class": "well-typed-rejected", "what": "%s || %s" % (x[:120], text[:200])}, dict(base, broken="a well-typed program (generated from the book's rules / shipped example) is rejected"))
